@@ -256,6 +256,7 @@ func run(e *core.Env) {
 		}
 		return false, ""
 	}
+	var knownTo []m.PublicAddress // valid identities V has accepted so far in this run
 	judge := func(entry string, pr presented) {
 		panics(entry + ": " + pr.what)
 		got, how := known(pr.pa.IP)
@@ -287,6 +288,9 @@ func run(e *core.Env) {
 			e.Probe("rejected_via_" + entry)
 		} else {
 			e.Probe("accepted_via_" + entry)
+			if got && pr.pa.Easing == 0 && len(pr.pa.PublicKey) == ed25519.PublicKeySize {
+				knownTo = append(knownTo, pr.pa)
+			}
 		}
 	}
 	var eased []*m.Address
@@ -381,6 +385,17 @@ func run(e *core.Env) {
 		case 2: // (c) inner hop record of an announcement delivered by P
 			pr := next(true, false)
 			origin := freshValid(used)
+			// In a quarter of the cases the record claims the address of a router V already knows -
+			// with the key of another identity, which also signs it. The key V trusts for an
+			// address is the one the address is derived from, not whatever a record carries.
+			var claimed *m.PublicAddress
+			if len(knownTo) > 0 && pr.valid && pr.pa.Easing == 0 && tp.Chance(1, 4) {
+				k := knownTo[tp.Intn(len(knownTo))]
+				claimed = &k
+				pr.pa.IP = k.IP
+				pr.valid, pr.what = false, "the address of a router V knows, with another identity's key"
+				e.Probe("known_address_presented_with_foreign_key")
+			}
 			if !pr.pa.IP.IsValid() {
 				continue
 			}
@@ -435,6 +450,22 @@ func run(e *core.Env) {
 			}
 			_ = lPV.SendPriority(f)
 			pump(10 * time.Millisecond)
+			if claimed != nil {
+				// V knows the address (rightly): what must not happen is that the announcement is
+				// accepted, or that the key V keeps for the address changes.
+				panics("hop-record: " + pr.what)
+				for _, en := range V.Router.Table().VerifEntries() {
+					if en.DstIP == origin.IP {
+						e.Fail("corrupted-identity-accepted/hop-record/"+slug(pr.what), "an announcement whose hop record claims %s with a foreign key was accepted: V holds a route to its origin %s", claimed.IP, origin.IP)
+					}
+				}
+				if sess := V.State.GetSession(claimed.IP); sess != nil && sess.Address() != nil && !bytes.Equal(sess.Address().PublicKey, claimed.PublicKey) {
+					e.Fail("accepted-identity-kept-under-another-identity/hop-record", "after a hop record with a foreign key the session V keeps for %s carries another key", claimed.IP)
+				}
+				e.Fault("corrupt_field")
+				e.Probe("rejected_via_hop-record")
+				continue
+			}
 			judge("hop-record", pr)
 			if mid != nil && pr.valid {
 				judge("hop-record", presented{pa: mid.PublicAddress, priv: mid.PrivateKey, valid: true, what: "valid"})
